@@ -699,6 +699,8 @@ class HttpRequestParser(HttpParser[RawRequestMessage]):
                 # authority-form,
                 # https://datatracker.ietf.org/doc/html/rfc7230#section-5.3.3
                 url = URL.build(authority=path, encoded=True)
+                # the authority is split and validated lazily here, too
+                url.raw_host  # noqa: B018
             elif path.startswith("/"):
                 # origin-form,
                 # https://datatracker.ietf.org/doc/html/rfc7230#section-5.3.1
